@@ -152,6 +152,48 @@ fn linear_parts(a: &IG) -> Option<Vec<Vec<IP>>> {
     }
 }
 
+/// Vertices of a line string as query points, with coordinates of MIXED magnitude (m*2^e, e in -30..40) or plain decimal
+/// fractions (k/10): a vertex lies on the geometry whatever `start + t*(end - start)` rounds to, so the answer must be
+/// an Intersection (its payload p up to the rounding of the projection).
+pub fn check_vertex_queries(sh: &mut Shard, cs: &[(f64, f64)], verbose: bool) {
+    use geo::LineString;
+    let pts: Vec<Coord<f64>> = cs.iter().map(|&(x, y)| Coord { x, y }).collect();
+    if pts.windows(2).all(|w| w[0] == w[1]) {
+        return;
+    }
+    let ls = LineString::new(pts.clone());
+    let mag = pts.iter().fold(0.0f64, |m, c| m.max(c.x.abs()).max(c.y.abs()));
+    let hex = |c: &Coord<f64>| format!("{:016x},{:016x}", c.x.to_bits(), c.y.to_bits());
+    for (i, p) in pts.iter().enumerate() {
+        let q = Point(*p);
+        let mut sites: Vec<(&str, Result<Closest<f64>, String>)> = vec![("LineString", call(|| ls.closest_point(&q)))];
+        if i + 1 < pts.len() && pts[i] != pts[i + 1] {
+            let l = Line::new(pts[i], pts[i + 1]);
+            sites.push(("Line(start)", call(|| l.closest_point(&q))));
+        }
+        if i > 0 && pts[i - 1] != pts[i] {
+            let l = Line::new(pts[i - 1], pts[i]);
+            sites.push(("Line(end)", call(|| l.closest_point(&q))));
+        }
+        for (site, got) in sites {
+            sh.eval(1);
+            let det = |got: String| json!({"property": "C12", "check": "closest_point.vertex_query", "kind": "vertex_queries", "coords_hex": pts.iter().map(|c| hex(c)).collect::<Vec<_>>(), "coords": format!("{:?}", pts), "vertex": i, "site": site, "expected": format!("Intersection({:?})", p), "got": got});
+            match got {
+                // (as everywhere in C12: the payload is p up to the rounding of the projection, the VARIANT is what is exact)
+                Ok(Closest::Intersection(c)) if (c.x() - p.x).abs().max((c.y() - p.y).abs()) <= 8.0 * U * mag => {}
+                Ok(other) => {
+                    if verbose {
+                        println!("{site} vertex {i}: {:?}", other);
+                    }
+                    sh.violation(&format!("closest_point.intersection_iff_intersects|{site}:vertex query|-"), det(format!("{:?}", other)))
+                }
+                Err(m) => sh.violation(&format!("closest_point.panic|{site}|-"), det(m)),
+            }
+        }
+    }
+    sh.class("closest:vertex_queries_mixed_magnitude");
+}
+
 pub fn check_interior(sh: &mut Shard, a: &IG, lat: &Lat, verbose: bool) {
     let g = a.to_geo(lat);
     let m = a.to_model();
@@ -365,6 +407,22 @@ pub fn run(ctx: &Ctx, sh: &mut Shard) {
         sh.cases += 1;
         let g = *r.pick(&[3i64, 4, 4, 5, 6, 8]);
         let lat = Lat::random(&mut r);
+        if k % 16 == 5 {
+            let n = r.range(2, 5);
+            let decimal = r.chance(1, 2);
+            let cs: Vec<(f64, f64)> = (0..n)
+                .map(|_| {
+                    if decimal {
+                        (r.range(-50, 50) as f64 / 10.0, r.range(-50, 50) as f64 / 10.0)
+                    } else {
+                        let mut c = || r.range(-4096, 4096) as f64 * crate::q::pow2(*r.pick(&[-30, -12, 0, 0, 9, 25, 40]));
+                        (c(), c())
+                    }
+                })
+                .collect();
+            check_vertex_queries(sh, &cs, false);
+            continue;
+        }
         if k % 4 == 3 {
             // sweep: few segments on a small lattice, many coincidences
             let n = r.range(2, 7);
@@ -412,6 +470,11 @@ pub fn run(ctx: &Ctx, sh: &mut Shard) {
 }
 
 pub fn replay(v: &Value, sh: &mut Shard) {
+    if v["kind"].as_str() == Some("vertex_queries") {
+        let cs: Vec<(f64, f64)> = v["coords_hex"].as_array().unwrap().iter().map(|h| { let t: Vec<u64> = h.as_str().unwrap().split(',').map(|x| u64::from_str_radix(x, 16).unwrap()).collect(); (f64::from_bits(t[0]), f64::from_bits(t[1])) }).collect();
+        check_vertex_queries(sh, &cs, true);
+        return;
+    }
     let lat = Lat::from_json(&v["lat"]);
     if v["kind"].as_str() == Some("sweep") {
         let segs: Vec<(IP, IP)> = v["segs"].as_array().unwrap().iter().map(|s| ((s[0][0].as_i64().unwrap(), s[0][1].as_i64().unwrap()), (s[1][0].as_i64().unwrap(), s[1][1].as_i64().unwrap()))).collect();
